@@ -31,3 +31,4 @@ EQUIVALENT = [
 ]
 BREAKING.append(('optional matrices merged over the probes that have them', 'phylib/io/merge.py', "            try:\n                concat = block_diag(*_load_multiple_files(fn, self.subdirs))\n            except FileNotFoundError:\n                logger.debug(\"File %s not found, skipping.\", fn)\n                continue\n", "            subdirs = [subdir for subdir in self.subdirs if (subdir / fn).exists()]\n            if not subdirs:\n                continue\n            concat = block_diag(*_load_multiple_files(fn, subdirs))\n", ['C12.S3']))
 EQUIVALENT.append(('optional matrices skipped by an existence test on all probes', 'phylib/io/merge.py', "            try:\n                concat = block_diag(*_load_multiple_files(fn, self.subdirs))\n            except FileNotFoundError:\n                logger.debug(\"File %s not found, skipping.\", fn)\n                continue\n", "            if not all((subdir / fn).exists() for subdir in self.subdirs):\n                continue\n            concat = block_diag(*_load_multiple_files(fn, self.subdirs))\n"))
+BREAKING.append(('probe directories sorted', 'phylib/io/merge.py', "        self.subdirs = [Path(subdir) for subdir in subdirs]", "        self.subdirs = sorted(Path(subdir) for subdir in subdirs)", ['C12.S3']))
